@@ -261,14 +261,22 @@ Definition int_lists_to_strings := int_lists_to_strings_gen ints_to_strings.
    its last byte is split on sep; empty pieces are dropped; the numbers are regrouped by the count of
    sep per row ---------- *)
 Definition count_eq (c : Z) (t : list Z) : Z := len (filter (Z.eqb c) t).
-Definition parse_split_ints (sep : Z) (fields : list (list Z)) : option (list (list Z)) :=
+Definition nonempty_piece (p : list Z) : bool := negb (len p =? 0).
+(* [fixed] = false: the code as pinned — rows are regrouped by the number of separators, so an empty piece
+   (empty list, trailing separator, ",,") shifts every later value into the wrong row;
+   [fixed] = true: notes/C02.fix-2.diff — rows are regrouped by the number of non-empty pieces per row. *)
+Definition parse_split_ints_gen (fixed : bool) (sep : Z) (fields : list (list Z)) : option (list (list Z)) :=
   let text := map (fun f => f ++ [sep]) fields in
   let pieces := split_on sep (removelast (concat text)) in
-  let nonempty := filter (fun p => negb (len p =? 0)) pieces in
+  let nonempty := filter nonempty_piece pieces in
+  let counts := map (count_eq sep) text in
+  let items := if fixed then map (fun ps => len (filter nonempty_piece ps)) (split_rows counts pieces) else counts in
   match (match nonempty with [] => Some [] | _ => str_to_int_rows nonempty end) with
   | None => None
-  | Some vals => Some (split_rows (map (count_eq sep) text) vals)
+  | Some vals => Some (split_rows items vals)
   end.
+Definition parse_split_ints_pinned := parse_split_ints_gen false.
+Definition parse_split_ints := parse_split_ints_gen true.
 
 (* ---------- float parsing (strops.py:126-183), exact rational arithmetic ---------- *)
 Definition dot_cols (t : list Z) : list Z := positions 46 t.
